@@ -228,6 +228,11 @@ type FSMCase struct {
 	Keys     [][]byte `json:"keys"`
 	LowKey   []byte   `json:"low_key"`
 	RangeEnd []byte   `json:"range_end"` // extreme explicit upper bound tried before the wildcard
+	// Probes: keys read one by one - neighbours of the stored keys (a stored key extended / shortened / changed in its last byte, keys
+	// sharing hundreds of leading bytes with a stored one) and the stored keys themselves: a key is answered from its own stored key or
+	// not at all (seeded change C12-K: the store's prefix function was capped at 128 bytes - an absent key was answered from a stored
+	// key that shares its first 123 bytes)
+	Probes [][]byte `json:"probes,omitempty"`
 }
 
 func genFSMCase(t *rapid.T) FSMCase {
@@ -243,7 +248,17 @@ func genFSMCase(t *rapid.T) FSMCase {
 		rapid.Just([]byte{0xFF}),
 		rapid.Custom(func(t *rapid.T) []byte { return genKey(t, "end", c.Keys) }),
 	).Draw(t, "end")
+	for i, k := 0, rapid.IntRange(1, 5).Draw(t, "probes"); i < k; i++ {
+		c.Probes = append(c.Probes, genKey(t, "probe", c.Keys))
+	}
 	return c
+}
+
+func firstKey(r *regattapb.ResponseOp_Range) []byte {
+	if len(r.Kvs) == 0 {
+		return nil
+	}
+	return r.Kvs[0].Key
 }
 
 func runFSM(c FSMCase, o *vt.Obs) *vt.Failure {
@@ -280,6 +295,20 @@ func runFSM(c FSMCase, o *vt.Obs) *vt.Failure {
 	for i, kv := range resp.Kvs {
 		if string(kv.Key) != sorted[i] {
 			return vt.Failf(prop+"/wildcard-read", 1, "wildcard read key %d = %q want %q", i, kv.Key, sorted[i])
+		}
+	}
+	// single-key reads: a key is answered from its own stored key or not at all
+	for _, pk := range c.Probes {
+		pr, err := r.Range(&regattapb.RequestOp_Range{Key: pk})
+		if err != nil {
+			return vt.Failf(prop+"/read-error", 1, "single-key read: %v", err)
+		}
+		if uniq[string(pk)] {
+			if len(pr.Kvs) != 1 || !bytes.Equal(pr.Kvs[0].Key, pk) {
+				return vt.Failf(prop+"/stored-key-not-found-under-its-own-name", 1, "single-key read of the stored key %q (%d bytes) returned %d pairs", clip(pk), len(pk), len(pr.Kvs))
+			}
+		} else if len(pr.Kvs) != 0 || pr.Count != 0 {
+			return vt.Failf(prop+"/absent-key-answered-from-another-key", 1, "single-key read of %q (%d bytes, not stored) returned %d pairs (count %d), first key %q (%d bytes)", clip(pk), len(pk), len(pr.Kvs), pr.Count, clip(firstKey(pr)), len(firstKey(pr)))
 		}
 	}
 	// [low, wildcard) == keys >= low
